@@ -23,6 +23,10 @@ import (
 func init() {
 	monitors["C27"] = func(r *rng, n int, res *MonitorResult) {
 		res.Rule = "operation sequences (set/setdefault/delete/get/compute/advertise/reopen) on the real premium.Setting against a Go map reference and exact big-integer arithmetic; non-trivial = a read after at least one write; distinct = distinct (op kind, key, expected) tuples"
+		// deterministic replay of the recorded witness (known finding C27/compute-overflow)
+		if got := premium.NewPPM(-385701).Compute(2100000000000000); got != -809972100000000 {
+			res.addFinding("C27/compute-overflow", fmt.Sprintf("amount × rate outside int64 wraps: Compute(2100000000000000) at rate -385701 gives %d, exact value -809972100000000", got), "premium.NewPPM(-385701).Compute(2100000000000000)")
+		}
 		dir, _ := os.MkdirTemp("", "psverif-c27")
 		defer os.RemoveAll(dir)
 		seen := map[string]bool{}
@@ -30,7 +34,9 @@ func init() {
 			peer string
 			a, o int
 		}
-		builtin := func(a, o int) int64 { return premium.DefaultPremiumRate[premium.AssetType(a)][premium.OperationType(o)] }
+		builtin := func(a, o int) int64 {
+			return premium.DefaultPremiumRate[premium.AssetType(a)][premium.OperationType(o)]
+		}
 		seq := 0
 		for done := 0; done < n; {
 			seq++
